@@ -3,6 +3,7 @@ package rules
 import (
 	"fmt"
 	"go/token"
+	"go/types"
 	"strings"
 
 	"golang.org/x/tools/go/ssa"
@@ -574,4 +575,55 @@ func bodyAlwaysPasses(fn *ssa.Function, l *natLoop, set map[int]bool) bool {
 		}
 	}
 	return true
+}
+
+// ruleLoopAlias: inside a loop, the address of a variable that lives outside
+// the loop is retained (stored into a collection, a field or another cell)
+// while the variable is reassigned on every iteration. All retained pointers
+// then denote one object: every element of the result equals the last one.
+func (c *Ctx) ruleLoopAlias(rule string, in func(*ssa.Function) bool) int {
+	n := 0
+	counts := map[string]int{}
+	for _, fn := range c.P.LibFunctions() {
+		if in != nil && !in(fn) {
+			continue
+		}
+		loops := naturalLoops(fn)
+		if len(loops) == 0 {
+			continue
+		}
+		for _, l := range loops {
+			n++
+			bad := ""
+			for bi := range l.body {
+				for _, ins := range fn.Blocks[bi].Instrs {
+					st, ok := ins.(*ssa.Store)
+					if !ok {
+						continue
+					}
+					a, isA := st.Val.(*ssa.Alloc)
+					if !isA || a.Block() == nil || l.body[a.Block().Index] {
+						continue // not an address, or a per-iteration variable
+					}
+					if _, isPtrToStruct := a.Type().Underlying().(*types.Pointer); !isPtrToStruct {
+						continue
+					}
+					// the variable is written inside the loop
+					written := false
+					for _, r := range *a.Referrers() {
+						if ws, isSt := r.(*ssa.Store); isSt && ws.Addr == ssa.Value(a) && l.body[ws.Block().Index] {
+							written = true
+						}
+					}
+					if written {
+						bad = "the address of " + a.Comment + " (declared outside the loop, assigned on every iteration) is retained at " + c.IPos(st)
+					}
+				}
+			}
+			key := ordinalKey(counts, name(fn)+":loop")
+			c.R.Check(bad == "", rule, name(fn), strings.TrimPrefix(key, name(fn)+":"), c.Pos(ir.BlockPos(l.header)),
+				"pointers collected in a loop denote distinct objects", bad+": every retained pointer aliases the same object, so all collected elements equal the last one")
+		}
+	}
+	return n
 }
